@@ -53,3 +53,35 @@ Example C14_ex_split :
   decode_all 64 [23; 25] EDone [firstn 5 copy_header; skipn 5 copy_header ++ be16 2 ++ be32 4 ++ [x00; x00]; [x00; x07] ++ be32 4294967295 ++ [xff]; [xff]]
   = ([[DInt 7; DNull]], CEnd).
 Proof. vm_compute. reflexivity. Qed.
+
+(* ---- from the client's messages to the rows ---- *)
+Require Import Wire.Errors Wire.Framing Wire.Session Spec.CopyBridge.
+
+(* The chunks the row reader works on are what successive CopyReader.Read calls return. For a COPY-in as the
+   client sends it — the well-formed stream cut into CopyData messages in ANY way, Flush and Sync messages
+   anywhere in between, closed by CopyDone, whatever follows — those calls return exactly the payloads, in
+   order, then end-of-stream, leaving what follows untouched; and the rows decoded from them are the rows
+   the client encoded. *)
+Theorem C14_from_messages : forall L oids rows tail fs chunks rest tl fuel,
+  16 <= L -> lenZ oids < 65535 -> forallb (wf_row L oids) rows = true ->
+  (tail = [] \/ exists junk, tail = copy_trailer ++ junk) ->
+  copy_stream fs chunks rest -> concat chunks = copy_header ++ flat_map (enc_row oids) rows ++ tail ->
+  (List.length fs < fuel)%nat ->
+  copy_reads fuel L fs tl = (chunks, OEof, rest) /\ decode_all L oids EDone chunks = (rows, CEnd).
+Proof.
+  intros L oids rows tail fs chunks rest tl fuel HL Hc W Ht S E Hf. split.
+  - apply copy_reads_stream; assumption.
+  - eapply C14_any_split; eauto.
+Qed.
+Print Assumptions C14_from_messages.
+
+Example C14_ex_messages :
+  let stream := copy_header ++ be16 2 ++ be32 4 ++ be32 7 ++ be32 4294967295 ++ copy_trailer in
+  let fs := [FMsg x64 (firstn 7 stream); FMsg x48 []; FMsg x64 []; FMsg x53 []; FMsg x64 (skipn 7 stream); FMsg x63 []; FMsg x51 [x00]] in
+  copy_stream fs [firstn 7 stream; []; skipn 7 stream] [FMsg x51 [x00]] /\
+  copy_reads 8 64 fs REof = ([firstn 7 stream; []; skipn 7 stream], OEof, [FMsg x51 [x00]]) /\
+  decode_all 64 [23; 25] EDone [firstn 7 stream; []; skipn 7 stream] = ([[DInt 7; DNull]], CEnd).
+Proof.
+  cbv zeta. split; [|split; vm_compute; reflexivity].
+  apply cs_data, cs_noise; [left; reflexivity|]. apply cs_data, cs_noise; [right; reflexivity|]. apply cs_data, cs_done.
+Qed.
